@@ -35,7 +35,8 @@ RULE = ('condition programs = forests of with-predicate / otherwise / |= nodes: 
         'XYZX ...) x 4 tree shapes (flat chain, chain ending in otherwise, nested otherwise, split), plus 60 '
         '(thorough 600) random ones with shared data wires too; distinct address wires get distinct values '
         'each cycle and the FULL memory contents are compared after every cycle; '
-        '(3) multi-block designs (2-3 conditional blocks per design, defaults of one block naming '
+        '(3) multi-block designs (2-3 conditional blocks per design; fresh defaults literal per block, or ONE dict '
+        'object passed to every block and checked unchanged afterwards; defaults of one block naming '
         'targets of another) and a malformed stream (2-bit predicate, foreign exception inside the block, nested '
         'conditional_assignment, otherwise outside a block, repeated assignment, unguarded assignment) '
         'interleaved with the good programs in one process, module state inspected after each. Each accepted '
@@ -203,8 +204,14 @@ def emit_source(case):
             L.append("%s = pyrtl.Register(%d, '%s')" % (n, case['W'], n))
         else:
             L.append("%s = pyrtl.MemBlock(bitwidth=%d, addrwidth=%d, name='%s')" % (n, case['W'], case['A'], n))
+    if case.get('shared_defaults'):
+        L.append('D = {%s}' % ', '.join('%s: %s' % (wname(l), leaf_src(case, lf))
+                                        for l, lf in case['shared_defaults'] if l in case['targets']))
+        L.append('D_ids = [(id(k), id(v)) for k, v in D.items()]')
     for blk in case['blocks']:
-        if blk['defaults'] is None:
+        if case.get('shared_defaults'):
+            L.append('with pyrtl.conditional_assignment(defaults=D):')
+        elif blk['defaults'] is None:
             L.append('with pyrtl.conditional_assignment:')
         else:
             L.append('with pyrtl.conditional_assignment(defaults={%s}):' % ', '.join(
@@ -449,7 +456,7 @@ def random_case(rng, tier):
     return case
 
 
-def multiblock_case(rng):
+def multiblock_case(rng, shared=False):
     """two or three conditional blocks in one design, disjoint targets; defaults of an earlier
     block may name a target that only a later block assigns (it is not *declared* there)"""
     npred = rng.randint(2, 3)
@@ -479,6 +486,15 @@ def multiblock_case(rng):
                     d.append((l, add_leaf(case, 'data')))
         case['blocks'].append({'defaults': d, 'prog': prog})
     case['origin'] = 'multiblock'
+    if shared:
+        # ONE dict object (a design-wide defaults table) handed to every block: each block declares all of it
+        D = [(l, add_leaf(case, 'data')) for l in targets if rng.random() < 0.75]
+        if not D:
+            D = [(targets[0], add_leaf(case, 'data'))]
+        case['shared_defaults'] = D
+        for b in case['blocks']:
+            b['defaults'] = list(D)
+        case['origin'] = 'multiblock-shared-dict'
     return case
 
 
@@ -904,8 +920,9 @@ def shrink(case, seed, want, budget=400):
                 cands.append(('block', bi))
             for pth in all_paths(b['prog']):
                 cands.append(('node', bi, pth))
-            for di in range(len(b['defaults'] or [])):
-                cands.append(('dflt', bi, di))
+            if not cur.get('shared_defaults'):
+                for di in range(len(b['defaults'] or [])):
+                    cands.append(('dflt', bi, di))
         for c in cands:
             budget -= 1
             if budget <= 0:
@@ -982,6 +999,13 @@ def process_case(ctx, case, rng, jobs, seed_key=None):
                       'program is %s by PyRTL but the syntactic exclusivity criterion says %s' % (
                           'accepted' if ok else 'rejected (%s)' % msg, why), rep)
         ok2, ns, msg = build_real(case, src)   # rebuild: the shrinker reset the working block
+    if ok and case.get('shared_defaults'):
+        now = [(id(k), id(v)) for k, v in ns['D'].items()]
+        ctx.count('caller_defaults_dict', 'unchanged' if now == ns['D_ids'] else 'MUTATED')
+        if now != ns['D_ids']:
+            ctx.spec_violation('caller-defaults-dict-mutated',
+                               'the dict passed as defaults= had %d entries before the blocks and %d after' % (
+                                   len(ns['D_ids']), len(now)), rep)
     steps = []
     job.update(steps=[], rows=[], init_regs={}, init_mems={})
     if ok and case['targets']:
@@ -1260,6 +1284,8 @@ def gen_cases(ctx):
     for i in range(40 if quick else 400):
         c = multiblock_case(ctx.sub_rng('multi', i))
         yield c
+    for i in range(40 if quick else 400):
+        yield multiblock_case(ctx.sub_rng('multi-shared', i), shared=True)
 
 
 def run(ctx):
